@@ -147,7 +147,7 @@ pub fn vec_push_get<const CAP: u32, const COLS: u32>() {
 
 /// extend with an honest or short ("lying") ExactSizeIterator, then push: indices are reserved
 /// as reported, filled as yielded, reserved-but-unfilled indices read as nothing
-pub fn vec_extend_get<const CAP: u32, const COLS: u32, const PRE: usize>() {
+pub fn vec_extend_get<const CAP: u32, const COLS: u32, const PRE: usize, const ACTUAL: usize>() {
     let v: Vec<u32> = Vec::with_capacity(CAP, COLS);
     // PRE indices reserved (and never filled) by an earlier lying batch: moves the start index
     // next to a bucket boundary without PRE loop iterations
@@ -156,8 +156,7 @@ pub fn vec_extend_get<const CAP: u32, const COLS: u32, const PRE: usize>() {
         assert!(v.count() == PRE as u32);
     }
     let items: [u32; 3] = kani::any();
-    let actual: usize = kani::any();
-    kani::assume(actual <= 3);
+    let actual: usize = ACTUAL;
     v.extend(Liar { reported: 3, actual, items, next: 0 }, fill_from);
     assert!(v.count() == PRE as u32 + 3, "a batch reserves as many indices as it reported");
     let x: u32 = kani::any();
@@ -179,8 +178,7 @@ pub fn vec_extend_get<const CAP: u32, const COLS: u32, const PRE: usize>() {
         kani::assume(j < PRE as u32);
         assert!(v.get(j).is_none(), "never-filled indices of the earlier batch read as nothing");
     }
-    kani::cover!(actual == 3);
-    kani::cover!(actual == 1);
+    kani::cover!(true);
     std::mem::forget(v);
 }
 
@@ -223,14 +221,13 @@ impl ExactSizeIterator for TrackedBatch {
 }
 
 /// history: [reserve PRE unfilled indices] ; extend(reported 2, yields `actual`) ; push ; drop
-pub fn vec_drop_exactly_once<const CAP: u32, const PRE: usize>() {
+pub fn vec_drop_exactly_once<const CAP: u32, const PRE: usize, const ACTUAL: usize>() {
     unsafe { DROPS = [0; 4] };
     let v: Vec<Tracked> = Vec::with_capacity(CAP, 1);
     if PRE > 0 {
         v.extend(TrackedBatch { reported: PRE, actual: 0, first_id: 0, next: 0 }, fill_tracked);
     }
-    let actual: usize = kani::any();
-    kani::assume(actual <= 2);
+    let actual: usize = ACTUAL;
     v.extend(TrackedBatch { reported: 2, actual, first_id: 0, next: 0 }, fill_tracked);
     v.push(Tracked(2), fill_tracked);
     unsafe {
@@ -242,7 +239,7 @@ pub fn vec_drop_exactly_once<const CAP: u32, const PRE: usize>() {
         assert!(DROPS[1] == if actual >= 2 { 1 } else { 0 }, "yielded item 1 is dropped exactly once");
         assert!(DROPS[2] == 1, "the pushed item is dropped exactly once when the vector is dropped");
     }
-    kani::cover!(actual == 1);
+    kani::cover!(true);
 }
 
 /// canary: must FAIL
